@@ -163,12 +163,15 @@ def gen(r):
 
 
 def run(tier, r):
+    oc.reset_hangs()
     ncases = 1000 if tier == "quick" else 22000
     vs, known, stats, samples, keys = [], [], {}, [], set()
     nontrivial = explored = 0
     worst = 0.0
     cases = [dict(WITNESS)] + [None] * ncases
     for i, case in enumerate(cases):
+        if oc.too_many_hangs(stats):
+            break
         if case is None:
             case = gen(r)
         v, info = oc.safe(check_case, PROP)(case)
